@@ -64,7 +64,7 @@ END"
 }
 
 pub fn configs(all: bool) -> Vec<Cfg> {
-    let imports: Vec<Vec<String>> = vec![vec![], vec!["core::fmt::Display".into()], vec!["core::fmt::Display".into(), "core::marker::*".into(), "alloc::string::String as AllocString".into()]];
+    let imports: Vec<Vec<String>> = vec![vec![], vec!["core::fmt::Display".into()], vec!["core::fmt::Display".into(), "core::marker::*".into(), "alloc::string::String as AllocString".into()], vec!["core::marker::*".into(), "core::ops::*".into(), "core::fmt::Write as FmtWrite".into(), "core::fmt::Display".into()]];
     let annots: Vec<Option<Vec<String>>> = vec![
         None,
         Some(vec!["#[derive(Eq, Hash, PartialOrd)]".into()]),
